@@ -42,39 +42,40 @@ theorem remove_eq (xs : List α) (position : Int) : remove xs position = Spec.re
 
 theorem subseqLoop2_eq (s : D) (xs : List α) (pos : Nat) :
     subseqLoop2 s pos xs =
-      ((xs.zipIdx pos).filter fun t => decide (leD s (ofPos t.2))).map Prod.fst := by
+      ((xs.zipIdx pos).filter fun t => leD s (ofPos t.2)).map Prod.fst := by
   induction xs generalizing pos with
   | nil => rfl
   | cons x xs ih =>
     simp only [subseqLoop2, List.zipIdx_cons, List.filter_cons]
-    have h : D.le s (D.ofNat pos) = decide (leD s (ofPos pos)) := by
-      rw [Bool.eq_iff_iff, decide_eq_true_iff]; exact D.le_iff _ _
+    have h : D.le s (D.ofNat pos) = leD s (ofPos pos) := rfl
     rw [h]
     split <;> simp_all
 
 theorem subseqLoop3_eq (s hi : D) (xs : List α) (pos : Nat) :
     subseqLoop3 s hi pos xs =
-      ((xs.zipIdx pos).filter fun t =>
-        decide (leD s (ofPos t.2)) && decide (ltD (ofPos t.2) hi)).map Prod.fst := by
+      ((xs.zipIdx pos).filter fun t => leD s (ofPos t.2) && ltD (ofPos t.2) hi).map Prod.fst := by
   induction xs generalizing pos with
   | nil => rfl
   | cons x xs ih =>
     simp only [subseqLoop3, List.zipIdx_cons, List.filter_cons]
-    have h : D.le s (D.ofNat pos) = decide (leD s (ofPos pos)) := by
-      rw [Bool.eq_iff_iff, decide_eq_true_iff]; exact D.le_iff _ _
-    have h' : D.lt (D.ofNat pos) hi = decide (ltD (ofPos pos) hi) := by
-      rw [Bool.eq_iff_iff, decide_eq_true_iff]; exact D.lt_iff _ _
+    have h : D.le s (D.ofNat pos) = leD s (ofPos pos) := rfl
+    have h' : D.lt (D.ofNat pos) hi = ltD (ofPos pos) hi := rfl
     rw [h, h']
     split <;> simp_all
 
+theorem subsequence2R_eq (xs : List α) (s : D) : subsequence2R xs s = Spec.subsequence2R xs s := by
+  simp [subsequence2R, Spec.subsequence2R, filterPos, positions, subseqLoop2_eq]
+
+theorem subsequence3R_eq (xs : List α) (s l : D) : subsequence3R xs s l = Spec.subsequence3R xs s l := by
+  simp [subsequence3R, Spec.subsequence3R, filterPos, positions, subseqLoop3_eq]
+
 theorem subsequence2_eq (xs : List α) (start : D) :
     subsequence2 xs start = Spec.subsequence2 xs start := by
-  simp [subsequence2, Spec.subsequence2, filterPos, positions, subseqLoop2_eq, roundArg, roundNumber_eq]
+  simp [subsequence2, subsequence2R, Spec.subsequence2, filterPos, positions, subseqLoop2_eq, roundNumber_eq]
 
 theorem subsequence3_eq (xs : List α) (start len : D) :
     subsequence3 xs start len = Spec.subsequence3 xs start len := by
-  simp [subsequence3, Spec.subsequence3, filterPos, positions, subseqLoop3_eq, roundArg, roundNumber_eq,
-    D.add_eq]
+  simp [subsequence3, subsequence3R, Spec.subsequence3, filterPos, positions, subseqLoop3_eq, roundNumber_eq]
 
 /-! ### insert-before -/
 
